@@ -507,3 +507,6 @@ def check(ctx):
     r6_socket_options(ctx)
     r7_queued_started(ctx)
     r8_queue_fits_one_tick(ctx)
+
+
+CLAUSE += '; the stream served is the accepted stream, wrapped and otherwise only moved'
